@@ -1,4 +1,182 @@
-import AY.Spec.Plain
+/-
+  C01 — "Tags are transparent: one source evaluates to its plain-YAML content".
+
+  Statement (properties.jsonl): Building a config from a single YAML source yields exactly the data
+  PyYAML would load from that source once awesomeyaml's merge-control tags (!force, !weak, !del,
+  !merge, !new, !unsafe, !metadata and the {{...}} metadata syntax; !notnew is by design an error in
+  a first document) are erased: same keys, same order of list elements, same scalar values and
+  Python types. Adding, removing or moving such tags on any node of a single document never changes
+  the evaluated content.
+  Quantifier: every YAML mapping document and every placement of merge-control tags / metadata on
+  its nodes.
+
+  What is proved: for every mapping document with merge-control tags on any nodes (arbitrary
+  keywords and metadata) the loader (`construct`, both construction modes) succeeds and the data of
+  the node tree (`native`) is the tag-erased document (`plainOfRaw`); the single-stage builder
+  (`flatten [n]`: pre-merge pass, first-stage `allow_new` check) returns that tree unchanged unless
+  the `allow_new` check fires; the evaluator (`config`) on that tree succeeds and returns the same
+  data (`valData` drops the object identities of the evaluated value).
+  PARTIAL (suffix `_partial`): the end-to-end statement is split at the first-stage `allow_new`
+  check — `reqNew [] [] n = none` is a hypothesis-free fact only for documents without `!notnew`
+  (`new = some false`), which is by design an error in a first document; that "no `!notnew` ⇒ the
+  check passes" step (an invariant on the inherited `allow_new` flag through the loader) is not
+  proved here, `C01_build_partial` exposes the check explicitly instead.
+  Predicates and proofs: AY/Lemmas/C01Construct.lean (`rawTaggedDoc`, `rawTagged`, `tagOK`),
+  AY/Lemmas/DataTree.lean (`dataT`), AY/Lemmas/C01Eval.lean (`valData`, evaluator invariant
+  `Fresh`), AY/Lemmas/Native.lean (`inheritInto`, `adopt`, `propagate`, `setPrioAll`, `applyKw`
+  preserve `native`).
+-/
+import AY.Lemmas.C01Construct
+import AY.Lemmas.C01Eval
+import AY.Lemmas.C02Fold
 namespace AY
-theorem C01_placeholder : foldUpd [] = .error .value := rfl
+
+/-! ### Concrete documents used by the non-vacuity examples -/
+
+/-- `!force {a: !del [1, {x: !weak y}], b: !unsafe {c: ~}, 3: !merge {{note: n}} [], d: !new z}`:
+    tagged containers at several depths (deep construction), an untagged mapping inside a tagged
+    sequence, tags on scalars, metadata -/
+def c01Doc : Raw :=
+  .map .plain { prio := some 1 } [
+    (.str "a", .seq .plain { del := some true } [
+      .scalar .none {} (.lit (.int 1)),
+      .map .none {} [(.str "x", .scalar .plain { prio := some (-1) } (.lit (.str "y")))]]),
+    (.str "b", .map .plain { safe := some false } [(.str "c", .scalar .none {} (.lit .null))]),
+    (.int 3, .seq .plain { del := some false, md := [("note", .str "n")] } []),
+    (.str "d", .scalar .plain { new := some true } (.text "z"))]
+
+/-- the same shape with an untagged root: top-down construction above tagged subtrees -/
+def c01Doc2 : Raw :=
+  .map .none {} [
+    (.str "k", .map .none {} [(.str "a", .seq .plain { prio := some 1 } [.seq .none {} [.scalar .none {} .empty]])]),
+    (.str "l", .seq .none {} [.map .plain { del := some true } []])]
+
+/-! ### The loader -/
+
+/- "Building a config from a single YAML source yields exactly the data PyYAML would load from
+   that source once awesomeyaml's merge-control tags … are erased … Adding, removing or moving such
+   tags on any node of a single document never changes the evaluated content": for every mapping
+   document whose tags are merge-control tags (any keywords `priority/delete/allow_new/safe`, any
+   metadata, on any node), parsing succeeds and the data of the node tree is the tag-erased
+   document — the flag bookkeeping (`inheritInto`, `adopt`, `propagate`, `setPrioAll`, `applyKw`)
+   is invisible in the data. -/
+theorem C01_tag_transparent_partial (env : Env) (r : Raw) (h : rawTaggedDoc r = true) :
+    ∃ n, construct env r = .ok n ∧ native n = plainOfRaw r := by
+  cases r with
+  | scalar t kw v => simp [rawTaggedDoc] at h
+  | seq t kw items => simp [rawTaggedDoc] at h
+  | map t kw items =>
+    obtain ⟨n, h1, h2, _⟩ := constructTD_tag env _ none (by simpa [rawTaggedDoc] using h)
+    exact ⟨n, h1, h2⟩
+
+example : rawTaggedDoc c01Doc = true ∧ rawTaggedDoc c01Doc2 = true := by decide
+example : ∃ n, construct {} c01Doc = .ok n ∧ native n = plainOfRaw c01Doc :=
+  C01_tag_transparent_partial {} c01Doc (by decide)
+example : ((construct {} c01Doc).map (fun n => n.depth)).toOption = some 3 := by decide
+
+/- The same inside a tagged region and below any parent: every subtree, constructed in either
+   mode (`deep=True` bottom-up, or top-down with adoption by an arbitrary parent), carries the
+   tag-erased data. -/
+theorem C01_subtree_transparent_partial (env : Env) (r : Raw) (parent : Option (Flags × CompKind))
+    (h : rawTagged r = true) :
+    (∃ n, constructDeep env r = .ok n ∧ native n = plainOfRaw r) ∧
+    (∃ n, constructTD env parent r = .ok n ∧ native n = plainOfRaw r) :=
+  ⟨(constructDeep_tag env r h).imp fun _ x => ⟨x.1, x.2.1⟩,
+   (constructTD_tag env r parent h).imp fun _ x => ⟨x.1, x.2.1⟩⟩
+
+example : rawTagged (.seq .plain { prio := some 1 } [.scalar .plain { del := some true } .empty]) = true := by
+  decide
+
+/-! ### Loader, single-stage builder and evaluator together -/
+
+/- "Building a config from a single YAML source yields exactly the data PyYAML would load from
+   that source once awesomeyaml's merge-control tags … are erased: same keys, same order of list
+   elements, same scalar values and Python types": for every mapping document with merge-control
+   tags, with `n` the parsed tree,
+   * `Builder.flatten` of the single stage is `n` itself, or the `notnew` error of the first-stage
+     `allow_new` check (`!notnew is by design an error in a first document`), nothing else;
+   * `Config(n)` (check_missing + evaluation, any `World`) succeeds and the evaluated value carries
+     exactly the tag-erased data. -/
+theorem C01_build_partial (env : Env) (w : World) (r : Raw) (h : rawTaggedDoc r = true) :
+    ∃ n, construct env r = .ok n ∧
+      (flatten [n] = match reqNew [] [] n with
+        | some p => .error (.notnew p)
+        | none => .ok n) ∧
+      ∃ v st, config w n = .ok (v, st) ∧ valData v = plainOfRaw r := by
+  cases r with
+  | scalar t kw v => simp [rawTaggedDoc] at h
+  | seq t kw items => simp [rawTaggedDoc] at h
+  | map t kw items =>
+    have h' : rawTagged (.map t kw items) = true := by simpa [rawTaggedDoc] using h
+    obtain ⟨n, h1, h2, h3⟩ := constructTD_tag env _ none h'
+    have hd : n.isDict = true := by
+      have : ∃ cs, native n = .dict cs := ⟨_, by rw [h2]; rfl⟩
+      obtain ⟨cs, hcs⟩ := this
+      cases n with
+      | leaf f lk => cases lk <;> simp [native] at hcs
+      | comp f k cs' =>
+        simp only [native] at hcs
+        split at hcs
+        · simpa [Node.isDict]
+        · cases hcs
+    obtain ⟨v, st, e1, e2⟩ := config_data w n h3 hd
+    exact ⟨n, h1, flatten_single_dataT n h3 hd, v, st, e1, by rw [e2, h2]⟩
+
+example : rawTaggedDoc c01Doc = true := by decide
+-- on the concrete document the first-stage check passes and the evaluation succeeds
+example : ((construct {} c01Doc).map (fun n => (reqNew [] [] n).isNone)).toOption = some true := by decide
+example : ((construct {} c01Doc).toOption.map (fun n => (config {} n).toBool)) = some true := by decide
+
+/- The evaluator on any mapping tree of plain mappings, plain lists and scalars with distinct
+   sibling keys — whatever its flags (priorities, delete/allow_new flags, `!unsafe`, metadata) —
+   returns the data of the tree: "plain node evaluation" is flag-blind. -/
+theorem C01_config_flag_blind (w : World) (n : Node) (hn : dataT n = true) (hd : n.isDict = true) :
+    ∃ v st, config w n = .ok (v, st) ∧ valData v = native n :=
+  config_data w n hn hd
+
+example : dataT (.comp { safe := some false, prio := some 1 } .dict
+    [(.str "a", .comp { del := some true } .list [(.int 0, .leaf { new := some false } (.scalar (.int 1)))])]) = true := by
+  decide
+
+/- Two placements of tags on the same document give the same data ("adding, removing or moving
+   such tags … never changes the evaluated content", at the level of the node tree). -/
+theorem C01_tags_irrelevant_partial (env env' : Env) (r r' : Raw) (h : rawTaggedDoc r = true)
+    (h' : rawTaggedDoc r' = true) (hsame : plainOfRaw r = plainOfRaw r') :
+    ∃ n n', construct env r = .ok n ∧ construct env' r' = .ok n' ∧ native n = native n' := by
+  obtain ⟨n, h1, h2⟩ := C01_tag_transparent_partial env r h
+  obtain ⟨n', g1, g2⟩ := C01_tag_transparent_partial env' r' h'
+  exact ⟨n, n', h1, g1, by rw [h2, g2, hsame]⟩
+
+/- The flag operations of the loader preserve the data (the lemmas the theorems above rest on,
+   for ALL nodes). -/
+theorem C01_flag_ops_preserve_data (n : Node) :
+    (∀ p kw, native (inheritInto p kw n) = native n) ∧
+    (∀ pf pk, native (adopt pf pk n) = native n) ∧
+    native (propagate n) = native n ∧
+    (∀ p, native (setPrioAll p n) = native n) ∧
+    (∀ kw, native (applyKw kw n) = native n) :=
+  ⟨fun p kw => native_inheritInto p kw n, fun pf pk => native_adopt pf pk n, nativeOf_propagate n,
+   fun p => native_setPrioAll p n, fun kw => nativeOf_applyKw kw n⟩
+
+example : native (setPrioAll 1 (.comp {} .list [(.int 0, .leaf {} (.scalar (.int 4)))])) =
+    .list [.scalar (.int 4)] := rfl
+
+/- First stage of the builder for a tag-free document (where `_require_all_new` cannot fire and
+   the pre-merge pass is the identity): `flatten` of the single parsed document returns it. The
+   version with merge-control tags needs the first-stage `allow_new` check (`!notnew` is an error
+   by design) and the pre-merge pass on tagged trees; not proved here. -/
+theorem C01_first_stage_partial (env : Env) (r : Raw) (h : rawPlain r = true) :
+    ∃ n, construct env r = .ok n ∧ (flatten [n]).map native = .ok (plainOfRaw r) := by
+  obtain ⟨n, h1, h2, h3, h4⟩ := construct_plain env r h
+  refine ⟨n, h1, ?_⟩
+  have := flatten_plain [n] (by simp) (by
+    intro st hst
+    simp only [List.mem_cons, List.not_mem_nil, or_false] at hst
+    subst hst; exact ⟨h3, h4⟩)
+  rw [this, ← h2]
+  rfl
+
+example : rawPlain (.map .none {} [(.str "a", .seq .none {} [.scalar .none {} (.lit (.int 1))])]) = true := by
+  decide
+
 end AY
